@@ -265,3 +265,59 @@ fn c16_track_fans_sample_rate_out_to_every_effect() {
 	kani::cover!(ra != rb, "w:rate-changed");
 	std::mem::forget(track);
 }
+
+// ---- one level of nesting (a Track inside a Track's arena) -----------------------------------------
+fn kv_track_with_child(child: Track, effects: Vec<Box<dyn EffectTrait>>) -> Track {
+	let (sounds, sc) = ResourceStorage::new(0);
+	let (mut sub_tracks, tc) = ResourceStorage::new(1);
+	let (cw, command_readers) = command_writers_and_readers();
+	std::mem::forget(sc); std::mem::forget(tc); std::mem::forget(cw);
+	let key = sub_tracks.resources.controller().try_reserve().unwrap();
+	let r = sub_tracks.resources.insert_with_key(key, child);
+	std::mem::forget(r);
+	Track {
+		shared: Arc::new(TrackShared::new()), command_readers,
+		volume: Parameter::new(Value::Fixed(Decibels::IDENTITY), Decibels::IDENTITY),
+		sounds, sub_tracks, effects, sends: vec![], persist_until_sounds_finish: false, spatial_data: None,
+		playback_state_manager: PlaybackStateManager::new(None), temp_buffer: vec![Frame::ZERO; 1], internal_buffer_size: 1,
+	}
+}
+
+// @h prop=C12 tier=thorough kind=main timeout=1750
+// @bounds a parent Track holding one child Track in its arena; parent handle dropped or not, child handle dropped or not, child persistent with a live sound or not (symbolic)
+// @funcs Track::should_be_removed (recursive)
+// @catches a track being removed while a descendant track must stay (child handle kept, or child persisting until its sound finishes): looking only at the child's dropped-handle flag instead of asking the child
+#[kani::proof]
+#[kani::unwind(3)]
+fn c12_parent_is_not_removed_before_its_child() {
+	let (pm, cm, cpersist, csound): (bool, bool, bool, bool) = (kani::any(), kani::any(), kani::any(), kani::any());
+	let mut child = kv_track(1, vec![], vec![], Decibels::IDENTITY, 1);
+	child.persist_until_sounds_finish = cpersist;
+	if csound { kv_place(&mut child, KvSound { vals: [0.0; 4], pos: 0 }); }
+	if cm { child.shared.mark_for_removal(); }
+	let child_removable = cm && (!cpersist || !csound);
+	let parent = kv_track_with_child(child, vec![]);
+	if pm { parent.shared.mark_for_removal(); }
+	assert!(parent.should_be_removed() == (pm && child_removable), "a track is never removed while a descendant track is alive");
+	kani::cover!(pm && cm && cpersist && csound, "w:child-persisting");
+	kani::cover!(pm && !cm, "w:child-handle-kept");
+	std::mem::forget(parent);
+}
+
+// @h prop=C16 tier=thorough kind=main timeout=1750
+// @bounds a parent Track with one probe effect holding one child Track with one probe effect: init_effects(A) then on_change_sample_rate(B), A and B symbolic
+// @funcs Track::{init_effects,on_change_sample_rate} (recursive)
+// @catches the sample-rate change not forwarded to nested sub-tracks (their effects keep the old rate while being handed dt = 1/new rate)
+#[kani::proof]
+#[kani::unwind(3)]
+fn c16_rate_change_reaches_nested_tracks() {
+	let child = kv_track(0, vec![Box::new(KvEffect { mul: 1.0, add: 0.0, tag: 2 })], vec![], Decibels::IDENTITY, 1);
+	let mut parent = kv_track_with_child(child, vec![Box::new(KvEffect { mul: 1.0, add: 0.0, tag: 1 })]);
+	let (ra, rb): (u32, u32) = (kani::any(), kani::any());
+	parent.init_effects(ra);
+	unsafe { assert!(KV_FX_INIT[1] == ra && KV_FX_INIT[2] == ra); }
+	parent.on_change_sample_rate(rb);
+	unsafe { assert!(KV_FX_RATE[1] == rb && KV_FX_RATE[2] == rb, "effects on every descendant track learn the new rate"); }
+	kani::cover!(ra != rb, "w:rate-changed");
+	std::mem::forget(parent);
+}
